@@ -96,6 +96,24 @@ Theorem truncated_digest :
 Proof. exact truncated_digest_proved. Qed.
 Print Assumptions truncated_digest.
 
+(* History independence of the digest check: whether the body b answered to a request for c
+   is accepted depends on b and c only -- it is [hashes_to b c], the digest under the
+   REQUESTED CID's own function and length -- whatever this or earlier syncs requested,
+   fetched or stored before (two arbitrary histories give the same verdict).  With
+   truncated_digest: the function is cid_fn c of the requested c, never that of a block
+   fetched earlier. *)
+Theorem digest_check_history_independent :
+  forall (body : Type) (hashes_to : body -> cid -> bool) (links_of : body -> option (list edge))
+         resp1 resp2 reqs1 reqs2 s1 s2 c b,
+    local_ok body hashes_to links_of s1 c = None -> local_ok body hashes_to links_of s2 c = None ->
+    resp1 (length reqs1) = Some b -> resp2 (length reqs2) = Some b ->
+    snd (fetch_block body hashes_to links_of resp1 reqs1 c s1) =
+      snd (fetch_block body hashes_to links_of resp2 reqs2 c s2) /\
+    (snd (fetch_block body hashes_to links_of resp1 reqs1 c s1) = Some b <-> hashes_to b c = true) /\
+    (snd (fetch_block body hashes_to links_of resp1 reqs1 c s1) = None <-> hashes_to b c = false).
+Proof. exact digest_check_history_independent_proved. Qed.
+Print Assumptions digest_check_history_independent.
+
 (* ---- an honest publisher: C02 computes exactly what C01 computes ---- *)
 
 (* [content c] is the genuine body of block c: it hashes to c and decodes to c's links in
